@@ -254,6 +254,11 @@ pub fn run(v: &serde_json::Value, rep: &mut Report) -> Result<(), String> {
                     let sums = |l: &PriceLevel| { let ls = l.iter_orders(); (ls.iter().map(|o| o.visible_quantity() as u128).sum::<u128>(), ls.iter().map(|o| o.hidden_quantity() as u128).sum::<u128>(), ls.len()) };
                     let mut bad = level.snapshot();
                     bad.visible_quantity = bad.visible_quantity.wrapping_add(7); bad.hidden_quantity = bad.hidden_quantity.wrapping_add(3); bad.order_count = bad.order_count.wrapping_add(1);
+                    {   // the by-reference constructor (From<&PriceLevelSnapshot>) is a separate function with its own refresh: same demand
+                        let t = PriceLevel::from(&bad); let (sv, sh, n) = sums(&t);
+                        if t.visible_quantity() as u128 != sv || t.hidden_quantity() as u128 != sh || t.order_count() != n || listing(&t) != a {
+                            rep.violation("C10", "restore.input_aggregates_never_believed", format!("step={step}: PriceLevel::from(&snapshot) of a snapshot with falsified aggregates yields aggregates ({}, {}, {}) for orders summing to ({sv}, {sh}, {n})", t.visible_quantity(), t.hidden_quantity(), t.order_count())); }
+                    }
                     match PriceLevel::from_snapshot(bad) {
                         Ok(t) => { let (sv, sh, n) = sums(&t); if t.visible_quantity() as u128 != sv || t.hidden_quantity() as u128 != sh || t.order_count() != n || listing(&t) != a {
                             rep.violation("C10", "restore.input_aggregates_never_believed", format!("step={step}: from_snapshot of a snapshot with falsified aggregates yields aggregates ({}, {}, {}) for orders summing to ({sv}, {sh}, {n})", t.visible_quantity(), t.hidden_quantity(), t.order_count())); } }
@@ -261,6 +266,8 @@ pub fn run(v: &serde_json::Value, rep: &mut Report) -> Result<(), String> {
                     }
                     // an order-less snapshot whose recorded aggregates say otherwise rebuilds an EMPTY level
                     let mut hollow = level.snapshot(); hollow.orders.clear();
+                    { let t = PriceLevel::from(&hollow); if t.visible_quantity() != 0 || t.hidden_quantity() != 0 || t.order_count() != 0 || !t.iter_orders().is_empty() {
+                        rep.violation("C10", "restore.input_aggregates_never_believed", format!("step={step}: PriceLevel::from(&snapshot) of an order-less snapshot with recorded aggregates yields aggregates ({}, {}, {}) with no resting order", t.visible_quantity(), t.hidden_quantity(), t.order_count())); } }
                     if let Ok(t) = PriceLevel::from_snapshot(hollow) { if t.visible_quantity() != 0 || t.hidden_quantity() != 0 || t.order_count() != 0 || !t.iter_orders().is_empty() {
                         rep.violation("C10", "restore.input_aggregates_never_believed", format!("step={step}: from_snapshot of an order-less snapshot with recorded aggregates yields aggregates ({}, {}, {}) with no resting order", t.visible_quantity(), t.hidden_quantity(), t.order_count()));
                         rep.violation("C01", "wf.visible_equals_sum", format!("step={step}: a level rebuilt from an order-less snapshot reports visible={} hidden={} count={} and lists no order", t.visible_quantity(), t.hidden_quantity(), t.order_count())); } }
